@@ -42,6 +42,19 @@ def cases(tier, seed, flavour):
         yield {'part': 'kernel-short', 'k': k}
     for f in ('gemm', 'gemv', 'syrk', 'symv', 'axpy'):
         yield {'part': 'base-shapes', 'f': f}
+    # the same with every transposition flag (operand shapes stored accordingly)
+    for tA in 'NTC':
+        for tB in 'NTC':
+            if tA + tB != 'NN':
+                yield {'part': 'base-shapes', 'f': 'gemm', 'tA': tA, 'tB': tB}
+        if tA != 'N':
+            yield {'part': 'base-shapes', 'f': 'gemv', 'tA': tA}
+            yield {'part': 'base-shapes', 'f': 'syrk', 'tA': tA}
+    # sparse indexing sizes its result in a counting pass and fills it in a second pass: every slice / index pair
+    for (m, n) in ((2, 1), (1, 3), (3, 2), (2, 3)):
+        for pat in ('full', 'lower', 'checker', 'lastcol'):
+            for mode in ('get', 'set'):
+                yield {'part': 'sparse-index', 'm': m, 'n': n, 'pat': pat, 'mode': mode}
 
 
 # ------------------------------------------------------------------------------------------------ helpers
@@ -468,56 +481,133 @@ def run_base_shapes(case):
         M = matrix([1.0 + ((2 * i) % 3) for i in range(r * c)], (r, c)) if r * c else matrix(0.0, (r, c))
         return sparse(M) if sp else M
     sizes = [0, 1, 2, 3]
+    plan = []
+    tA, tB = case.get('tA', 'N'), case.get('tB', 'N')
+
+    def sh(r, c, t):
+        return (r, c) if t == 'N' else (c, r)       # stored shape of an operand whose op() is r x c
     for spA, spB, spC in itertools.product((False, True), repeat=3):
         for m_, k_, n_ in itertools.product((1, 2), repeat=3):
             for cr, cc in itertools.product(sizes, repeat=2):
                 if f == 'gemm':
-                    A, B, C = mk(m_, k_, spA), mk(k_, n_, spB), mk(cr, cc, spC)
+                    A, B, C = mk(*(sh(m_, k_, tA) + (spA,))), mk(*(sh(k_, n_, tB) + (spB,))), mk(cr, cc, spC)
                     fits = (cr, cc) == (m_, n_)
-                    fn = lambda: base.gemm(A, B, C)
+                    fn = (lambda A=A, B=B, C=C: base.gemm(A, B, C)) if tA + tB == 'NN' else \
+                        (lambda A=A, B=B, C=C: base.gemm(A, B, C, transA=tA, transB=tB))
                 elif f == 'gemv':
                     if spB or spC:
                         continue
-                    A, x, y = mk(m_, k_, spA), mk(k_, 1, False), mk(cr, 1, False)
+                    A, x, y = mk(*(sh(m_, k_, tA) + (spA,))), mk(k_, 1, False), mk(cr, 1, False)
                     if cc != 1:
                         continue
                     fits = cr >= m_
-                    fn = lambda: base.gemv(A, x, y)
+                    fn = (lambda A=A, x=x, y=y: base.gemv(A, x, y)) if tA == 'N' else (lambda A=A, x=x, y=y: base.gemv(A, x, y, trans=tA))
                 elif f == 'syrk':
                     if spB:
                         continue
-                    A, C = mk(m_, k_, spA), mk(cr, cc, spC)
+                    A, C = mk(*(sh(m_, k_, tA) + (spA,))), mk(cr, cc, spC)
                     fits = (cr, cc) == (m_, m_)
-                    fn = lambda: base.syrk(A, C)
+                    fn = (lambda A=A, C=C: base.syrk(A, C)) if tA == 'N' else (lambda A=A, C=C: base.syrk(A, C, trans=tA))
                 elif f == 'symv':
                     if spB or spC or cc != 1 or m_ != k_:
                         continue
                     A, x, y = mk(m_, m_, spA), mk(m_, 1, False), mk(cr, 1, False)
                     fits = cr >= m_
-                    fn = lambda: base.symv(A, x, y)
+                    fn = lambda A=A, x=x, y=y: base.symv(A, x, y)
                 else:
                     if spB:
                         continue
                     x, y = mk(m_, k_, spA), mk(cr, cc, spC)
                     fits = (cr, cc) == (m_, k_)
-                    fn = lambda: base.axpy(x, y)
-                res = _forked(fn)
-                n += 1
-                nt += 0 if fits else 1
-                lab = ('fits' if fits else 'mismatch') + ':' + res[0]
-                outcomes[lab] = outcomes.get(lab, 0) + 1
-                sub = {'f': f, 'sparse': [spA, spB, spC], 'dims': [m_, k_, n_], 'out': [cr, cc]}
-                if res[0] in ('signal', 'timeout'):
-                    viol.append({'key': 'C19:base.%s:mismatched-output-shape:interpreter-killed' % f, 'msg': 'base.%s with output of size %r killed the interpreter' % (f, (cr, cc)), 'sub': sub})
-                elif res[0] == 'ok' and not fits:
-                    viol.append({'key': 'C19:base.%s:mismatched-output-shape:accepted' % f, 'msg': 'base.%s accepted an output operand of size %r for operands of dims %r' % (f, (cr, cc), (m_, k_, n_)), 'sub': sub})
-                if len(viol) > 5:
-                    return {'n': n, 'nontrivial': nt, 'viol': viol, 'outcomes': outcomes}
+                    fn = lambda x=x, y=y: base.axpy(x, y)
+                plan.append((fn, fits, {'f': f, 'trans': tA + tB, 'sparse': [spA, spB, spC], 'dims': [m_, k_, n_], 'out': [cr, cc]}))
+    # one forked child runs the calls one after the other; a call that kills it is recorded and a new child continues
+    results = _forked_batch([pl[0] for pl in plan])
+    for (fn, fits, sub), res in zip(plan, results):
+        n += 1
+        nt += 0 if fits else 1
+        lab = ('fits' if fits else 'mismatch') + ':' + res[0]
+        outcomes[lab] = outcomes.get(lab, 0) + 1
+        cr_cc, dims = tuple(sub['out']), tuple(sub['dims'])
+        if res[0] in ('signal', 'timeout'):
+            viol.append({'key': 'C19:base.%s:mismatched-output-shape:interpreter-killed' % f, 'msg': 'base.%s with output of size %r killed the interpreter' % (f, cr_cc), 'sub': sub})
+        elif res[0] == 'ok' and not fits:
+            viol.append({'key': 'C19:base.%s:mismatched-output-shape:accepted' % f, 'msg': 'base.%s accepted an output operand of size %r for operands of dims %r' % (f, cr_cc, dims), 'sub': sub})
+        if len(viol) > 5:
+            break
     return {'n': n, 'nontrivial': nt, 'viol': viol, 'outcomes': outcomes}
+
+
+def run_sparse_index(case):
+    """A[r, c] and A[r, c] = v on small sparse matrices for every pair of index expressions from a slice / integer /
+    list alphabet (all start, stop, step combinations incl. negative steps).  Under the sanitizer flavour every heap
+    access outside the arrays of the operands is a violation; in both flavours the result must equal dense indexing."""
+    from cvxopt import matrix, spmatrix, sparse
+    m, n, pat, mode = case['m'], case['n'], case['pat'], case['mode']
+    cells = [(i, j) for j in range(n) for i in range(m)]
+    keep = {'full': cells, 'lower': [(i, j) for (i, j) in cells if i >= j], 'checker': [(i, j) for (i, j) in cells if (i + j) % 2 == 0],
+            'lastcol': [(i, j) for (i, j) in cells if j == n - 1 or i == m - 1]}[pat]
+    vals = [float(1 + i + 10 * j) for (i, j) in keep]
+
+    def mk():
+        return spmatrix(vals, [i for i, _ in keep], [j for _, j in keep], (m, n))
+
+    def alphabet(dim):
+        out = []
+        for st in (None, 0, 1, dim - 1, -1, dim):
+            for sp in (None, 0, 1, dim, -1, -dim - 1):
+                for step in (None, 1, 2, -1, -2):
+                    out.append(slice(st, sp, step))
+        out += list(range(-dim, dim)) + [[0], [dim - 1, 0], [-1, -1], matrix([0, dim - 1])]
+        seen, uniq = set(), []
+        for ix in out:
+            k = repr(ix.indices(dim)) if isinstance(ix, slice) else repr(list(ix) if not isinstance(ix, int) else ix)
+            if (type(ix).__name__, k) not in seen:
+                seen.add((type(ix).__name__, k)); uniq.append(ix)
+        return uniq
+    viol = []
+    nev = nt = 0
+    rows, cols = alphabet(m), alphabet(n)
+    for r in rows:
+        for c in cols:
+            S = mk()
+            D = matrix(S)
+            nev += 1
+            try:
+                if mode == 'get':
+                    got = S[r, c]
+                    want = D[r, c]
+                    g = list(matrix(got)) if hasattr(got, 'size') else [got]
+                    w = list(want) if hasattr(want, 'size') else [want]
+                    gs = tuple(got.size) if hasattr(got, 'size') else ()
+                    ws = tuple(want.size) if hasattr(want, 'size') else ()
+                else:
+                    S[r, c] = 2.5
+                    D[r, c] = 2.5
+                    g, w, gs, ws = list(matrix(S)), list(D), S.size, D.size
+                nt += 1
+                if (g, gs) != (w, ws):
+                    viol.append({'key': 'C19:sparse-index:%s:differs-from-dense' % mode,
+                                 'msg': 'sparse %s with [%r, %r] on a %dx%d matrix gives %r %r, dense %r %r' % (mode, r, c, m, n, gs, g, ws, w),
+                                 'sub': {'r': repr(r), 'c': repr(c), 'm': m, 'n': n, 'pat': pat}})
+                    break
+                ci = list(S.CCS[0]); ri = list(S.CCS[1])
+                if ci[0] != 0 or any(a > b for a, b in zip(ci, ci[1:])) or ci[-1] != len(ri) or \
+                        any(ri[k] >= ri[k + 1] for j in range(n) for k in range(ci[j], ci[j + 1] - 1)):
+                    viol.append({'key': 'C19:sparse-index:%s:operand-structure-invalid' % mode,
+                                 'msg': 'after sparse %s with [%r, %r] the operand has colptr %r rowind %r' % (mode, r, c, ci, ri)})
+                    break
+            except (IndexError, TypeError, ValueError, NotImplementedError):
+                pass
+        if viol:
+            break
+    return {'n': nev, 'nontrivial': nt, 'viol': viol, 'outcomes': {'sparse-index-' + mode: nev}}
 
 
 def run(case):
     p = case['part']
+    if p == 'sparse-index':
+        return run_sparse_index(case)
     if p == 'blas-box':
         return run_blas_box(case)
     if p == 'blas-large':
@@ -533,4 +623,4 @@ SKIP_DETERMINISM_GATE = True
 
 
 def crash_key(case):
-    return case['part'] + ':' + str(case.get('f', case.get('k', '')))
+    return case['part'] + ':' + str(case.get('f', case.get('k', ''))) + case.get('tA', '') + case.get('tB', '')
